@@ -2,6 +2,8 @@ import FastorModel.Driver.Common
 import FastorModel.Generated.Simd_sse2
 import FastorModel.Generated.Simd_avx2
 import FastorModel.Generated.Simd_avx512
+import FastorModel.Generated.C16Spec_avx2
+import FastorModel.Generated.C16Spec_avx512
 /- `hstep` command of the driver (C16): the horizontal helpers of extintrin.h, EXECUTED from the definitions that
    vlib/xlate_simd.py generates from the current source for the build configuration of the case.  The uninterpreted
    floating-point operations are instantiated by integer arithmetic on the lane bit patterns (the harness uses
@@ -78,6 +80,64 @@ def runHstep (kv : List (String × String)) : String := Id.run do
   let data := ((xs.splitOn ",").filterMap String.toInt?).toArray
   match evalHelper cfg fn data with
   | some r => return s!"route=hstep R={r}"
+  | none => return "bad-op"
+
+/-- `hspec`: the intrinsic specialisations of the reduction back ends, executed from Generated/C16Spec_<isa>.lean
+    (square root = identity, so `_norm` yields the radicand) -/
+private def evalSpec (cfg fn : String) (xs ys : Array Int) : Option Int :=
+  let fo : FOps := { intFO with sqrt32 := id, sqrt64 := id }
+  let m32 : Nat → BitVec 32 := fun i => BitVec.ofInt 32 (xs.getD i 0)
+  let m64 : Nat → BitVec 64 := fun i => BitVec.ofInt 64 (xs.getD i 0)
+  let n32 : Nat → BitVec 32 := fun i => BitVec.ofInt 32 (ys.getD i 0)
+  let n64 : Nat → BitVec 64 := fun i => BitVec.ofInt 64 (ys.getD i 0)
+  match cfg with
+  | "avx512" =>
+    match fn with
+    | "norm_float_4" => some (Gen.avx512.spec.norm_float_4 fo m32).toInt
+    | "norm_float_9" => some (Gen.avx512.spec.norm_float_9 fo m32).toInt
+    | "trace_float_2x2" => some (Gen.avx512.spec.trace_float_2x2 fo m32).toInt
+    | "trace_float_3x3" => some (Gen.avx512.spec.trace_float_3x3 fo m32).toInt
+    | "det_float_2" => some (Gen.avx512.spec.det_float_2 fo m32).toInt
+    | "det_float_3" => some (Gen.avx512.spec.det_float_3 fo m32).toInt
+    | "norm_double_4" => some (Gen.avx512.spec.norm_double_4 fo m64).toInt
+    | "norm_double_9" => some (Gen.avx512.spec.norm_double_9 fo m64).toInt
+    | "trace_double_2x2" => some (Gen.avx512.spec.trace_double_2x2 fo m64).toInt
+    | "trace_double_3x3" => some (Gen.avx512.spec.trace_double_3x3 fo m64).toInt
+    | "det_double_2" => some (Gen.avx512.spec.det_double_2 fo m64).toInt
+    | "det_double_3" => some (Gen.avx512.spec.det_double_3 fo m64).toInt
+    | "doublecontract_float_2x2" => some (Gen.avx512.spec.doublecontract_float_2x2 fo m32 n32).toInt
+    | "doublecontract_float_3x3" => some (Gen.avx512.spec.doublecontract_float_3x3 fo m32 n32).toInt
+    | "doublecontract_double_2x2" => some (Gen.avx512.spec.doublecontract_double_2x2 fo m64 n64).toInt
+    | "doublecontract_double_3x3" => some (Gen.avx512.spec.doublecontract_double_3x3 fo m64 n64).toInt
+    | _ => none
+  | _ =>
+    match fn with
+    | "norm_float_4" => some (Gen.avx2.spec.norm_float_4 fo m32).toInt
+    | "norm_float_9" => some (Gen.avx2.spec.norm_float_9 fo m32).toInt
+    | "trace_float_2x2" => some (Gen.avx2.spec.trace_float_2x2 fo m32).toInt
+    | "trace_float_3x3" => some (Gen.avx2.spec.trace_float_3x3 fo m32).toInt
+    | "det_float_2" => some (Gen.avx2.spec.det_float_2 fo m32).toInt
+    | "det_float_3" => some (Gen.avx2.spec.det_float_3 fo m32).toInt
+    | "norm_double_4" => some (Gen.avx2.spec.norm_double_4 fo m64).toInt
+    | "norm_double_9" => some (Gen.avx2.spec.norm_double_9 fo m64).toInt
+    | "trace_double_2x2" => some (Gen.avx2.spec.trace_double_2x2 fo m64).toInt
+    | "trace_double_3x3" => some (Gen.avx2.spec.trace_double_3x3 fo m64).toInt
+    | "det_double_2" => some (Gen.avx2.spec.det_double_2 fo m64).toInt
+    | "det_double_3" => some (Gen.avx2.spec.det_double_3 fo m64).toInt
+    | "doublecontract_float_2x2" => some (Gen.avx2.spec.doublecontract_float_2x2 fo m32 n32).toInt
+    | "doublecontract_float_3x3" => some (Gen.avx2.spec.doublecontract_float_3x3 fo m32 n32).toInt
+    | "doublecontract_double_2x2" => some (Gen.avx2.spec.doublecontract_double_2x2 fo m64 n64).toInt
+    | "doublecontract_double_3x3" => some (Gen.avx2.spec.doublecontract_double_3x3 fo m64 n64).toInt
+    | _ => none
+
+def runHspec (kv : List (String × String)) : String := Id.run do
+  let some cfg := getS kv "cfg" | return "bad-op"
+  let some fn := getS kv "fn" | return "bad-op"
+  let some xs := getS kv "x" | return "bad-op"
+  let data := ((xs.splitOn ",").filterMap String.toInt?).toArray
+  let data2 := ((((getS kv "y").getD "").splitOn ",").filterMap String.toInt?).toArray
+  match evalSpec cfg fn data data2 with
+  | some r => return s!"route=hspec R={r}"
   | none => return "bad-op"
 
 end Fastor.Driver.C16H
